@@ -415,6 +415,28 @@ func decodeInit(t *Trace) []initBlock {
 
 func (e *Engine) newBytes(t *Trace, h *harness, oracle string) (*memory.Bytes, *bytemem.Mem, bool) {
 	inits := decodeInit(t)
+	if t.Shared {
+		// the caller's blocks are windows into one image buffer, laid out in
+		// the order given (not by address), with spare room behind the last:
+		// every slice has capacity beyond its length, as slices of a file
+		// image have
+		total := 16
+		for _, b := range inits {
+			total += len(b.bs)
+		}
+		buf := make([]byte, total)
+		for i := range buf {
+			buf[i] = 0xa5
+		}
+		off := 0
+		for i := range inits {
+			n := copy(buf[off:], inits[i].bs)
+			inits[i].bs = buf[off : off+n]
+			off += n
+		}
+		h.ssnap = append(h.ssnap, sliceSnap{"the buffer the initial blocks are windows of", buf, append([]byte(nil), buf...)})
+		h.ctx.Probe("initial_blocks_share_a_buffer")
+	}
 	blocks := make([]memory.ByteBlock, len(inits))
 	for i, b := range inits {
 		blocks[i] = b
